@@ -2,7 +2,7 @@
 From ChiaV.Base Require Import Bytes Sha256.
 From ChiaV.Clvm Require Import Sexp Ints TreeHash.
 From ChiaV.Gen Require Import Precomputed CurryFF.
-From ChiaV.Thash Require Import Heap Mirror Curry DeBr PrecomputedProofs.
+From ChiaV.Thash Require Import Heap Mirror Curry DeBr PrecomputedProofs CacheProofs Examples.
 From ChiaV.Props Require Import C17.
 Open Scope N_scope.
 
@@ -10,26 +10,111 @@ Check C17_precomputed_table_24 :
   length precomputed_hashes = 24%nat /\
   forall i : N, i < 24 -> nth (N.to_nat i) precomputed_hashes [] = sha256 (x01 :: canon_n i).
 Print Assumptions C17_precomputed_table_24.
-Check C17_small_atom_table_use : forall v : N,
+Check C17_small_atom_table_use :
+  forall v : N,
   small_atom_hash sha256 v = th sha256 (Atom (canon_n v)).
 Print Assumptions C17_small_atom_table_use.
-Check C17_tree_hash_stack : forall (H : bytes -> bytes), table_ok H ->
+Check C17_tree_hash_stack :
+  forall (H : bytes -> bytes), table_ok H ->
   forall h n fuel, wf h -> valid h n -> (2 * node_count (den h n) <= fuel)%nat ->
   tree_hash_stack H fuel h n = Ok (th H (den h n)).
 Print Assumptions C17_tree_hash_stack.
-Check C17_tree_hash_stack_sha256 : forall h n fuel,
+Check C17_tree_hash_stack_sha256 :
+  forall h n fuel,
   wf h -> valid h n -> (2 * node_count (den h n) <= fuel)%nat ->
   tree_hash_stack sha256 fuel h n = Ok (th sha256 (den h n)).
 Print Assumptions C17_tree_hash_stack_sha256.
-Check C17_tree_hash_stack_any_fuel : forall (H : bytes -> bytes), table_ok H ->
+Check C17_tree_hash_stack_any_fuel :
+  forall (H : bytes -> bytes), table_ok H ->
   forall h n fuel, wf h -> valid h n ->
   tree_hash_stack H fuel h n = OutOfFuel \/ tree_hash_stack H fuel h n = Ok (th H (den h n)).
 Print Assumptions C17_tree_hash_stack_any_fuel.
-Check C17_curry_tree_hash : forall (H : bytes -> bytes) p args,
+Check C17_curry_tree_hash :
+  forall (H : bytes -> bytes) p args,
   curry_tree_hash H (th H p) (map (th H) args) = th H (curried_program p args).
 Print Assumptions C17_curry_tree_hash.
-Check C17_ff_curry_and_treehash : forall (H : bytes -> bytes) mod_tree inner mod_hash launcher_id launcher_puzzle_hash,
+Check C17_ff_curry_and_treehash :
+  forall (H : bytes -> bytes) mod_tree inner mod_hash launcher_id launcher_puzzle_hash,
   th H mod_tree = mod_hash ->
   ff_curry_and_treehash H (th H inner) mod_hash launcher_id launcher_puzzle_hash
   = th H (singleton_puzzle mod_tree inner mod_hash launcher_id launcher_puzzle_hash).
 Print Assumptions C17_ff_curry_and_treehash.
+Check C17_tree_hash_cached_any_history :
+  forall (H : bytes -> bytes), table_ok H ->
+  forall h c n fuel, reachable H h c -> valid h n ->
+  (length (h_pairs h) + 2 * node_count (den h n) <= fuel)%nat ->
+  exists c', tree_hash_cached H fuel h n c = Ok (th H (den h n), c') /\ reachable H h c'.
+Print Assumptions C17_tree_hash_cached_any_history.
+Check C17_tree_hash_cached_any_history_sha256 :
+  forall h c n fuel,
+  reachable sha256 h c -> valid h n ->
+  (length (h_pairs h) + 2 * node_count (den h n) <= fuel)%nat ->
+  exists c', tree_hash_cached sha256 fuel h n c = Ok (th sha256 (den h n), c') /\ reachable sha256 h c'.
+Print Assumptions C17_tree_hash_cached_any_history_sha256.
+Check C17_tree_hash_cached_any_fuel :
+  forall (H : bytes -> bytes), table_ok H ->
+  forall h c n fuel, reachable H h c -> valid h n ->
+  match tree_hash_cached H fuel h n c with
+  | Ok (x, _) => x = th H (den h n)
+  | Panic => False
+  | OutOfFuel => True
+  end.
+Print Assumptions C17_tree_hash_cached_any_fuel.
+Check C17_tree_hash_cached_invariant :
+  forall (H : bytes -> bytes), table_ok H ->
+  forall h n c fuel, wf h -> valid h n -> cache_ok H h c ->
+  (length (h_pairs h) + 2 * node_count (den h n) <= fuel)%nat ->
+  exists c', tree_hash_cached H fuel h n c = Ok (th H (den h n), c') /\ cache_ok H h c'.
+Print Assumptions C17_tree_hash_cached_invariant.
+Check C17_visit_tree :
+  forall (H : bytes -> bytes) h n c fuel,
+  wf h -> valid h n -> cache_ok H h c -> (length (h_pairs h) <= fuel)%nat ->
+  exists c', visit_tree fuel h n c = Ok c' /\ cache_ok H h c'.
+Print Assumptions C17_visit_tree.
+Check C17_tree_hash_from_bytes :
+  forall (H : bytes -> bytes), table_ok H ->
+  forall bs t fuel, deser_br bs = DOk t ->
+  (4 * length bs + 4 + 2 * node_count t <= fuel)%nat ->
+  tree_hash_from_bytes H fuel bs = FOk (th H t).
+Print Assumptions C17_tree_hash_from_bytes.
+Check C17_tree_hash_from_bytes_plain :
+  forall (H : bytes -> bytes), table_ok H ->
+  forall bs t rest fuel, deser bs = Some (t, rest) ->
+  (4 * length bs + 4 + 2 * node_count t <= fuel)%nat ->
+  tree_hash_from_bytes H fuel bs = FOk (th H t).
+Print Assumptions C17_tree_hash_from_bytes_plain.
+Check C17_tree_hash_from_bytes_sha256 :
+  forall bs t fuel, deser_br bs = DOk t ->
+  (4 * length bs + 4 + 2 * node_count t <= fuel)%nat ->
+  tree_hash_from_bytes sha256 fuel bs = FOk (th sha256 t).
+Print Assumptions C17_tree_hash_from_bytes_sha256.
+Check C17_tree_hash_from_bytes_rejects :
+  forall (H : bytes -> bytes) bs fuel,
+  deser_br bs = DErr -> tree_hash_from_bytes H fuel bs = FErr.
+Print Assumptions C17_tree_hash_from_bytes_rejects.
+Check C17_tree_hash_from_bytes_no_panic :
+  forall (H : bytes -> bytes), table_ok H ->
+  forall bs fuel, tree_hash_from_bytes H fuel bs <> FPanic.
+Print Assumptions C17_tree_hash_from_bytes_no_panic.
+Check C17_deser_br_total :
+  forall bs, deser_br bs <> DPanic /\ deser_br bs <> DFuel.
+Print Assumptions C17_deser_br_total.
+Check C17_deser_br_extends_plain :
+  forall bs t rest, deser bs = Some (t, rest) -> deser_br bs = DOk t.
+Print Assumptions C17_deser_br_extends_plain.
+Check C17_backrefs_heap_refines_tree :
+  forall bs,
+  match deser_br bs, node_from_bytes_backrefs bs with
+  | DOk t, DOk (h, n) => wf h /\ valid h n /\ den h n = t
+  | DErr, DErr => True
+  | _, _ => False
+  end.
+Print Assumptions C17_backrefs_heap_refines_tree.
+Check C17_example_shared_heap_reachable_cache :
+  wf ex_heap /\ valid ex_heap (NPair 2) /\
+  (den ex_heap (NPair 2) = let p0 := Pair (Atom [x01; x02; x03]) (Atom [x05]) in Pair (Pair p0 p0) p0) /\
+  exists c, reachable sha256 ex_heap c /\ c_hashes c <> [].
+Print Assumptions C17_example_shared_heap_reachable_cache.
+Check C17_example_backref_bytes :
+  deser_br ex_br_bytes = DOk (Pair (Atom ex_foobar) (Pair (Atom ex_foobar) nil)) /\ deser ex_br_bytes = None.
+Print Assumptions C17_example_backref_bytes.
